@@ -94,7 +94,7 @@ func VerifC01Validator() {
 	if verifNondetBool("has_attestation") {
 		att = &spb.Attestation{}
 		if verifNondetBool("has_report") {
-			n := verifConcretize(int(verifNondetU8("meas_len")%50), 0, 49)
+			n := verifConcretize(int(verifNondetU8("report_meas_len")%50), 0, 49)
 			att.Report = &spb.Report{Measurement: verifNondetBytes("report_meas", n)}
 		}
 	}
